@@ -714,6 +714,10 @@ def _execute_estimation(
     is_detailed_results_required: bool = False,
 ) -> StandardQTomographyEstimationResult:
     if isinstance(estimator, LossMinimizationEstimator):
+        # calc_estimate_sequence updates loss and algo; tasks that joblib runs on threads share the
+        # setting's objects, so every task works on private copies
+        loss = copy.deepcopy(loss)
+        algo = copy.deepcopy(algo)
         estimation_result = estimator.calc_estimate_sequence(
             qtomography,
             empi_dists_seq,
